@@ -1,5 +1,6 @@
 """C11 - running never modifies caller data, caller parameters or the global parameters."""
 from sa.rules import ownership
+from sa.rules.params import global_read_discipline
 
 LEVEL = 'other'
 
@@ -9,6 +10,9 @@ def check(ctx):
     ownership.global_prms_writers(ctx, 'C11-R2')
     ownership.snapshot_never_mutated(ctx, 'C11-R3')
     ownership.owned_fields(ctx, 'C11-R4')
+    # R5: 'later edits of the global parameters do not affect an existing chunk': nothing on the processing path reads
+    # the live dictionary, except the one deep copy that makes the snapshot
+    global_read_discipline(ctx, 'C11-R5')
     ctx.undecided += ['adjust_nested_dict stores the caller\'s leaf objects by reference: a list-valued '
                       'leaf (MIN_SEP_VALS) of the snapshot is shared with the caller\'s dictionary; '
                       'ampycloud never writes it (R3), which is what the property asks']
